@@ -709,14 +709,14 @@ func execDisjoint(dir string, cfg natCfg, g int, lists [][]cOp, anyDealloc, burs
 				e.settle()
 				st, err := e.readAll(true, 2)
 				if err != nil {
-					if cfg.Prone && e.sawRotated {
+					if cfg.Prone && e.sawRotated && vstat.IsListed(sigRotSameSecond) {
 						dead = fail(sigRotSameSecond, "%v\nconfig: %v\n%s", err, cfg, hist())
 					} else {
 						dead = fail(sigLogUnparsable, "%v\nconfig: %v\n%s", err, cfg, hist())
 					}
 				} else {
 					dead = checkLogMultiset(ct, cfg, st.recs, held, wantA, wantR, hist) || res.sig != ""
-					if cfg.Prone && e.sawRotated && res.sig == sigConcLog {
+					if cfg.Prone && e.sawRotated && vstat.IsListed(sigRotSameSecond) && res.sig == sigConcLog {
 						// several rotations shared a clock second in this case: the loss is the listed finding
 						res.sig = sigRotSameSecond
 					}
